@@ -131,6 +131,12 @@ const TARGETS: &[Target] = &[
     Target { file: "ssz/src/bitfield/bitvector_dynamic.rs", imp: "Bitfield<Dynamic>", tr: "Encode", name: "ssz_append", coq: "bitdyn_ssz_append" },
     Target { file: "ssz/src/bitfield/bitvector_dynamic.rs", imp: "Bitfield<Dynamic>", tr: "Decode", name: "is_ssz_fixed_len", coq: "bitdyn_dec_is_ssz_fixed_len" },
     Target { file: "ssz/src/bitfield/bitvector_dynamic.rs", imp: "Bitfield<Dynamic>", tr: "Decode", name: "from_ssz_bytes", coq: "bitdyn_from_ssz_bytes" },
+    Target { file: "ssz/src/bitfield.rs", imp: "Bitfield<Variable<N>>", tr: "Serialize", name: "serialize", coq: "bitlist_serialize" },
+    Target { file: "ssz/src/bitfield.rs", imp: "Bitfield<Variable<N>>", tr: "Deserialize", name: "deserialize", coq: "bitlist_deserialize" },
+    Target { file: "ssz/src/bitfield.rs", imp: "Bitfield<Fixed<N>>", tr: "Serialize", name: "serialize", coq: "bitvector_serialize" },
+    Target { file: "ssz/src/bitfield.rs", imp: "Bitfield<Fixed<N>>", tr: "Deserialize", name: "deserialize", coq: "bitvector_deserialize" },
+    Target { file: "ssz/src/bitfield/bitvector_dynamic.rs", imp: "Bitfield<Dynamic>", tr: "Serialize", name: "serialize", coq: "bitdyn_serialize" },
+    Target { file: "ssz/src/bitfield/bitvector_dynamic.rs", imp: "Bitfield<Dynamic>", tr: "Deserialize", name: "deserialize", coq: "bitdyn_deserialize" },
     Target { file: "ssz/src/decode.rs", imp: "trait Decode", tr: "", name: "ssz_fixed_len", coq: "decode_default_ssz_fixed_len" },
     Target { file: "ssz/src/encode.rs", imp: "trait Encode", tr: "", name: "ssz_fixed_len", coq: "encode_default_ssz_fixed_len" },
     Target { file: "ssz/src/encode.rs", imp: "trait Encode", tr: "", name: "as_ssz_bytes", coq: "encode_default_as_ssz_bytes" },
@@ -342,6 +348,9 @@ struct Cx {
     /// impl key of the function being translated ("Bitfield<Variable<N>>"), "" for a free function
     cur_imp: String,
     cur_tr: String,
+    /// serde: the `serializer: S` / `deserializer: D` parameter of the function being translated
+    serde_ser_var: Option<String>,
+    serde_de_var: Option<String>,
     /// types declared inside the function body, with the trait functions their local impls define (as terms)
     local_impls: HashMap<String, HashMap<String, String>>,
     /// numeric type parameters in scope (`N: Unsigned`): `N::to_usize()` is the variable `tN`
@@ -589,7 +598,7 @@ fn int_lit(e: &Expr) -> Option<u128> {
 impl Cx {
     fn new(records: HashMap<String, Vec<String>>, res_fns: HashMap<String, String>) -> Self {
         Cx { fresh: 0, binds: vec![], self_rec: None, records, res_fns, fn_params: vec![], aliases: HashMap::new(), u8ctx: false, mut_methods: vec![], notes: vec![],
-             cur_imp: String::new(), cur_tr: String::new(), local_impls: HashMap::new(), tparams: vec![], var_rec: HashMap::new(), fns: HashMap::new(), ret_option: false, field_types: HashMap::new(), ret_none: "Ok None".to_string(), dict_params: vec![], dict_used: vec![], list_vars: vec![], mut_param: None, borrows: HashMap::new(), dict_bounds: HashMap::new(), var_ty: HashMap::new(), expected_ty: None, dict_sigs: HashMap::new() }
+             cur_imp: String::new(), cur_tr: String::new(), serde_ser_var: None, serde_de_var: None, local_impls: HashMap::new(), tparams: vec![], var_rec: HashMap::new(), fns: HashMap::new(), ret_option: false, field_types: HashMap::new(), ret_none: "Ok None".to_string(), dict_params: vec![], dict_used: vec![], list_vars: vec![], mut_param: None, borrows: HashMap::new(), dict_bounds: HashMap::new(), var_ty: HashMap::new(), expected_ty: None, dict_sigs: HashMap::new() }
     }
 
     fn var(&mut self, hint: &str) -> String {
@@ -1393,7 +1402,7 @@ impl Cx {
                             }
                         }
                     }
-                    if !ty.is_empty() && ty != "Self" || p.qself.is_some() {
+                    if !ty.is_empty() {
                         let want_ty = if ty == "Self" { self.cur_imp.clone() } else { ty.clone() };
                         let hits: Vec<FnInfo> = self.fns.iter().filter(|(k, i)| i.imp == want_ty && k.ends_with(&format!("::{}", name)) && k.matches("::").count() == 2
                             && tr.as_ref().map(|t| k.contains(&format!("::{}::", t))).unwrap_or(true)).map(|(_, i)| i.clone()).collect();
@@ -1417,6 +1426,11 @@ impl Cx {
                         return Ok((format!("t{}", n), Pure));
                     }
                     return Err(format!("{}::to_usize() of a type parameter that is not a type-level number in scope", n));
+                }
+                if f == "hex_encode" && c.args.len() == 1 {
+                    // `serde_utils::hex::encode`: "0x" and lowercase hex digits
+                    let v = self.val(&c.args[0])?;
+                    return Ok((format!("(hex_encode {})", v), Pure));
                 }
                 if (f == "SmallVec::new" && c.args.is_empty()) || (f == "Self::from_iter" && c.args.len() == 1 && tokens(&c.args[0]).replace(' ', "") == "iter::empty()" && self.cur_imp.starts_with("BTree")) {
                     // the empty collection
@@ -1641,6 +1655,23 @@ impl Cx {
                     args.push(self.val(a)?);
                 }
                 return Ok((format!("{} {}", f, args.join(" ")), Comp));
+            }
+        }
+        if let Expr::Path(rp) = strip_refs(&m.receiver) {
+            let rv = coq_ident(&path_str(&rp.path));
+            if name == "serialize_str" && self.serde_ser_var.as_deref() == Some(rv.as_str()) && m.args.len() == 1 {
+                let v = self.val(&m.args[0])?;
+                return Ok((format!("Ok {}", paren(&v)), Comp));
+            }
+            if name == "deserialize_str" && self.serde_de_var.as_deref() == Some(rv.as_str()) && m.args.len() == 1 && tokens(&m.args[0]) == "PrefixedHexVisitor" {
+                return Ok((format!("ok_or (prefixed_hex_decode {})", rv), Comp));
+            }
+        }
+        // the default `as_ssz_bytes` on a value of the impl's own type: through the type's translated `ssz_append`
+        if name == "as_ssz_bytes" && m.args.is_empty() && matches!(strip_refs(&m.receiver), Expr::Path(pp) if path_str(&pp.path) == "self") {
+            if let Some(info) = self.fns.get(&format!("{}::Encode::ssz_append", self.cur_imp)).cloned() {
+                let targs = self.targs(&info, &[])?;
+                return Ok((format!("encode_default_as_ssz_bytes ({} {}) self", info.coq, targs.join(" ")).replace(" )", ")"), Comp));
             }
         }
         if (name == "ssz_append" || name == "ssz_bytes_len" || name == "as_ssz_bytes") && self.rec_of_expr(&m.receiver).is_none() {
@@ -3440,7 +3471,14 @@ fn main() {
                             continue;
                         }
                     }
-                    if tys.len() == 1 && tys.chars().all(|c| c.is_uppercase()) && cx.dict_bounds.get(&tys).map(|b| b.contains("->Result<")).unwrap_or(false) {
+                    if tys.len() == 1 && cx.dict_bounds.get(&tys).map(|b| b.contains("Deserializer")).unwrap_or(false) {
+                        // serde: the input of `deserialize` is, for these impls, the string handed to `deserialize_str`
+                        cx.serde_de_var = Some(name.clone());
+                        params.push(format!("({} : list N)", name));
+                    } else if tys.len() == 1 && cx.dict_bounds.get(&tys).map(|b| b.contains("Serializer")).unwrap_or(false) {
+                        // serde: the serializer is a sink; `serialize_str(s)` makes `s` the function's value
+                        cx.serde_ser_var = Some(name.clone());
+                    } else if tys.len() == 1 && tys.chars().all(|c| c.is_uppercase()) && cx.dict_bounds.get(&tys).map(|b| b.contains("->Result<")).unwrap_or(false) {
                         // `F: FnOnce(&[u8]) -> Result<T, E>`: a fallible function of a slice
                         let b = cx.dict_bounds.get(&tys).cloned().unwrap_or_default();
                         let ret = b.split("->Result<").nth(1).and_then(|x| x.split(',').next()).unwrap_or("T").to_string();
